@@ -1,17 +1,14 @@
 SPECIFICATION Spec
 CONSTANTS
   FSKinds = {"std", "mem", "rec"}
-  PathIds = {1, 3}
-  Vals = {2, 5}
-  MaxRecs = 2
-  MemPaths = {1, 2, 3}
-  Avoid = {}
+  PathIds = {3}
+  Vals = {1, 2, 3}
+  MaxRecs = 4
+  MemPaths = {3}
+  Avoid = {"mem_shrink", "mem_reopen"}
   Mirror = FALSE
-  MaxLevel = 5
+  MaxLevel = 100
   SimK = 0
-CONSTRAINT LevelBound
-INVARIANT TypeOK
 INVARIANT ReadYourWrites
 INVARIANT SeqReadYourWrites
 INVARIANT WritesSucceed
-INVARIANT NoAliasing
